@@ -106,3 +106,7 @@ mod wasm;
 
 #[cfg(target_arch = "wasm32")]
 pub use wasm::*;
+
+#[cfg(feature = "verif_hooks")]
+#[doc(hidden)]
+pub mod verif_hooks;
